@@ -7,7 +7,7 @@
 //! child process under a CPU limit and reports the ones that die as violations. A crash that
 //! does not reproduce in isolation is reported as inconclusive (exit 2), never as a violation.
 
-use super::child::{run_batch, ChildOutcome};
+use super::child::ChildOutcome;
 use super::{emit, hash_of, VERIF_ROOT};
 use std::os::unix::fs::FileExt;
 use std::os::unix::process::ExitStatusExt;
@@ -197,7 +197,7 @@ pub fn supervise(prop: &str, level: &str, args: &[String], tier: &str, seed: u64
                 } else {
                     vec![]
                 };
-                let outcomes = run_batch(prop, &f.sub, &cases, CHILD_CPU_SECS, (WORKER_STACK / 1024) as u64);
+                let outcomes = super::child::run_batch_opt(prop, &f.sub, &cases, CHILD_CPU_SECS, (WORKER_STACK / 1024) as u64, true);
                 for (c, o) in cases.iter().zip(outcomes.iter()) {
                     let msg = match o {
                         ChildOutcome::Died(m) => format!("the call did not return: process {} (stack overflow / abort)", m),
